@@ -361,6 +361,60 @@ example : (Note.prop "C07" "end 2 err (a function ordered after it was started b
       [.handout 3, .invoke 3, .fin 3 true, .handout 2, .handout 1, .invoke 2, .invoke 1, .fin 2 false]).2 := by
   decide
 
+/-- (6) limit 0 ("0 and None mean unbounded"): the clean complete run (1) of the diamond, schedule and
+    events unchanged, under `limit := some 0`; exercises the C10 note "limit 0 means unbounded, yet a
+    ready function is unstarted" at each of the three `q` points (next to the C06 note, which states
+    the same fact) -/
+def lim0Cfg_Z : Cfg := { exCfg_F with limit := some 0 }
+
+set_option maxRecDepth 100000 in
+theorem lim0_obsRun_Z : ∃ s, ObsRun (xDiamond lim0Cfg_Z) (init lim0Cfg_Z) okEvents_Q s :=
+  obsRun_of_obsEvents' (l := okSchedule_Q) (by decide)
+
+/-- the theorem applied: all notes of this run are ok … -/
+example : ∀ n ∈ (predRun (xDiamond lim0Cfg_Z) {} okEvents_Q).2, n.ok = true := by
+  obtain ⟨s, hs⟩ := lim0_obsRun_Z
+  exact preds_hold (xDiamond_good lim0Cfg_Z rfl rfl (by intro h; cases h)) hs ok_runOk_Q
+
+/-- … in particular the C10 notes (family form) -/
+example : ∀ n ∈ (predRun (xDiamond lim0Cfg_Z) {} okEvents_Q).2, n.property = "C10" → n.ok = true := by
+  obtain ⟨s, hs⟩ := lim0_obsRun_Z
+  exact preds_hold_C10 (xDiamond_good lim0Cfg_Z rfl rfl (by intro h; cases h)) hs
+
+set_option maxRecDepth 100000 in
+/-- the new note is emitted at the three `q` points (53 notes = the 50 of run (1) + 3), and with
+    `limit := none` it is not emitted at all -/
+example : ((predRun (xDiamond lim0Cfg_Z) {} okEvents_Q).2.filter (fun n =>
+      n == .prop "C10" "q limit 0 means unbounded, yet a ready function is unstarted" true)).length = 3 ∧
+    (predRun (xDiamond lim0Cfg_Z) {} okEvents_Q).2.length = 53 ∧
+    ((predRun (xDiamond exCfg_F) {} okEvents_Q).2.filter (fun n =>
+      n == .prop "C10" "q limit 0 means unbounded, yet a ready function is unstarted" true)).length = 0 := by
+  decide
+
+set_option maxRecDepth 100000 in
+/-- the note is falsifiable: `0` has returned, only `2` was started — `1` is ready and unstarted (an
+    implementation that read limit 0 as "one at a time"): the C10 note (and the C06 note) is false;
+    with both `1` and `2` started it is true; after an interrupt or a failure, or in a sequential
+    run, it is not emitted -/
+example : (predFut (xDiamond lim0Cfg_Z)
+      { realInvoked := [0, 2], realEnded := [0], realEndedOk := [0] } .q).2.filter (fun n => !n.ok) =
+      [.prop "C06" "q" false,
+       .prop "C10" "q limit 0 means unbounded, yet a ready function is unstarted" false] ∧
+    (predFut (xDiamond lim0Cfg_Z)
+      { realInvoked := [0, 2, 1], realEnded := [0], realEndedOk := [0] } .q).2.filter
+        (fun n => n.property == "C10") =
+      [.prop "C10" "q limit 0 means unbounded, yet a ready function is unstarted" true] ∧
+    (predFut (xDiamond lim0Cfg_Z)
+      { realInvoked := [0, 2], realEnded := [0], realEndedOk := [0], intrAt := some 1 } .q).2.filter
+        (fun n => n.property == "C10") = [] ∧
+    (predFut (xDiamond lim0Cfg_Z)
+      { realInvoked := [0, 2, 1], realEnded := [0, 1], realEndedOk := [0], realFailed := [1] } .q).2.filter
+        (fun n => n.property == "C10") = [] ∧
+    (predFut (xDiamond { lim0Cfg_Z with sequential := true })
+      { realInvoked := [0, 2], realEnded := [0], realEndedOk := [0] } .q).2.filter
+        (fun n => n.property == "C10") = [] := by
+  decide
+
 /-! ### C10: a limit is work-conserving (the model fact behind the "idle below limit" note) -/
 
 /-- **C10** (work conservation), re-exported from `Proofs/UIdle.lean`: limit `l+1`, not
@@ -397,5 +451,41 @@ set_option maxRecDepth 100000 in
 example : allBlockedB (exC_G (some 2)) exS2_G.invoked exS2_G.endedOk = true :=
   limit_work_conserving_allBlocked (l := 1) (exC_good_G _) exS2_reach_G (by decide) rfl rfl (by decide)
     (by decide) (by decide)
+
+/-- the model fact behind the "limit 0 means unbounded" note (and the C06 note): `limit = none` or
+    `some 0`, not sequential, no interrupt, no failure, quiescent: every function whose predecessors
+    have all returned ok has been started -/
+theorem unlimited_work_conserving_allBlocked {c : Cfg} {s : PState} (hc : GoodCfg c) (hr : Reachable c s)
+    (hq : Quiescent c s) (hseq : c.sequential = false) (hlim : c.limit = none ∨ c.limit = some 0)
+    (hni : s.im.sent = false ∧ s.im.recv = false)
+    (hf : s.failed = []) : allBlockedB c s.invoked s.endedOk = true := by
+  unfold allBlockedB
+  rw [List.all_eq_true]
+  intro v hv
+  rw [List.mem_range] at hv
+  simp only [Bool.or_eq_true, decide_eq_true_eq, List.any_eq_true]
+  by_cases hall : ∀ p ∈ parents c.D v, p ∈ s.endedOk
+  · exact Or.inl (maximal_progress_of_idle hc hr hq hseq hlim hni hf hv hall).2
+  · right
+    simp only [not_forall] at hall
+    obtain ⟨p, hp, hpe⟩ := hall
+    exact ⟨p, hp, hpe⟩
+
+/-- limit 0 on the diamond of `Proofs/LiveExample.lean`: `0` and `1` have returned, `2` is running
+    and `3` waits for it -/
+def exZ2_Z : PState :=
+  exStep_G (some 0) (exStep_G (some 0) (settle (exC_G (some 0)) (init (exC_G (some 0)))) 0 true) 1 true
+
+theorem exZ2_reach_Z : Reachable (exC_G (some 0)) exZ2_Z :=
+  exStep_reachable_G (exStep_reachable_G (settleN_reachable _ .init) _ _) _ _
+
+/- non-vacuity: the hypotheses hold of that state, and it is the non-trivial one (`2` in flight,
+   both children of the root started, `3` blocked) -/
+set_option maxRecDepth 100000 in
+example : allBlockedB (exC_G (some 0)) exZ2_Z.invoked exZ2_Z.endedOk = true :=
+  unlimited_work_conserving_allBlocked (exC_good_G _) exZ2_reach_Z (by decide) rfl (Or.inr rfl) (by decide)
+    (by decide)
+set_option maxRecDepth 100000 in
+example : exZ2_Z.inflight = [2] ∧ exZ2_Z.endedOk = [0, 1] ∧ 3 ∉ exZ2_Z.invoked := by decide
 
 end FG
